@@ -213,6 +213,26 @@ def random_case(rng):
             g.add_file("sp", "pq0/u0.py", "pq0.u0", "pip")
     if rng.random() < 0.5:
         g.add_file("sp", "pq1.py", "pq1", "pip")
+    if "pq0" in g.names and rng.random() < 0.4:
+        # nested regular package inside a pip package
+        g.add_file("sp", "pq0/sub/__init__.py", "pq0.sub", "pip")
+        g.add_file("sp", "pq0/sub/deep.py", "pq0.sub.deep", "pip")
+    if rng.random() < 0.45:
+        # PEP 420 namespace package in site-packages: NO nsq/__init__.py (google.*, zope.* style);
+        # nsq/inner is a regular package or itself a namespace portion
+        if rng.random() < 0.5:
+            g.add_file("sp", "nsq/inner/__init__.py", "nsq.inner", "pip")
+        g.add_file("sp", "nsq/inner/mod.py", "nsq.inner.mod", "pip")
+        if rng.random() < 0.4:
+            g.add_file("sp", "nsq/flat.py", "nsq.flat", "pip")
+    if rng.random() < 0.3:
+        # local nested package whose top-level name is shared with nothing else
+        g.add_file("proj", "lp/__init__.py", "lp", "local")
+        g.add_file("proj", "lp/inner/__init__.py", "lp.inner", "local")
+        g.add_file("proj", "lp/inner/lmod.py", "lp.inner.lmod", "local")
+    if rng.random() < 0.25:
+        # local namespace package (no __init__.py at any level): must stay local
+        g.add_file("proj", "lns/inner/nmod.py", "lns.inner.nmod", "local")
     members = {"keyword": "iskeyword", "colorsys": "rgb_to_hls", "token": "tok_name", "sys": "argv", "os": "sep",
                "math": "pi"}
     for n in rng.sample(STDLIB_LEAF, rng.randint(0, 2)):
@@ -267,22 +287,42 @@ def corpus_cases():
     c = g.case(3, ["keyword"])
     c["shape"] = {"two_names": False, "missing": False, "corpus": "excluded-stdlib"}
     yield c
+    for form in ("from", "import", "from_pkg"):
+        g = Gen(random.Random(0))
+        g.add_file("proj", "target.py", "target", "local")
+        g.add_file("proj", "lm0.py", "lm0", "local")
+        g.add_file("sp", "nsq/inner/mod.py", "nsq.inner.mod", "pip")
+        g.add_file("sp", "pq0/__init__.py", "pq0", "pip")
+        g.add_file("sp", "pq0/sub/__init__.py", "pq0.sub", "pip")
+        g.add_file("sp", "pq0/sub/deep.py", "pq0.sub.deep", "pip")
+        g.add_import(("proj", "target.py"), "nsq.inner.mod", form=form)
+        g.add_import(("proj", "target.py"), "pq0.sub.deep", form=form)
+        g.add_import(("proj", "target.py"), "lm0", form="from")
+        t = g.files[("proj", "target.py")]
+        t["calls"] = [{"from": "f_nsq_inner_mod(x)", "import": "nsq.inner.mod.f_nsq_inner_mod(x)",
+                       "from_pkg": "mod.f_nsq_inner_mod(x)"}[form],
+                      {"from": "f_pq0_sub_deep(x)", "import": "pq0.sub.deep.f_pq0_sub_deep(x)",
+                       "from_pkg": "deep.f_pq0_sub_deep(x)"}[form], "f_lm0(x)"]
+        for lvl in (1, 2):
+            c = g.case(lvl, [])
+            c["shape"] = {"two_names": False, "missing": False, "corpus": f"namespace-pip-{form}-f{lvl}"}
+            yield c
 
 
 def enumerated_cases(nodes):
     """Every import graph over the fixed nodes (target + locals + one pip module), one import form,
     x levels x 3 pattern sets."""
     import itertools
-    kinds = {"target": "local", "lm0": "local", "lm1": "local", "pq1": "pip"}
+    kinds = {"target": "local", "lm0": "local", "lm1": "local", "pq1": "pip", "nsq.inner.mod": "pip"}
     files = {"target": ("proj", "target.py"), "lm0": ("proj", "lm0.py"), "lm1": ("proj", "lm1.py"),
-             "pq1": ("sp", "pq1.py")}
-    outs = {n: [m for m in nodes if m != n and not (n == "pq1" and m == "target")] for n in nodes}
+             "pq1": ("sp", "pq1.py"), "nsq.inner.mod": ("sp", "nsq/inner/mod.py")}
+    outs = {n: [m for m in nodes if m != n and not (kinds[n] == "pip" and m == "target")] for n in nodes}
     subsets = {n: [c for r in range(len(outs[n]) + 1) for c in itertools.combinations(outs[n], r)] for n in nodes}
     for combo in itertools.product(*[subsets[n] for n in nodes]):
         if not combo[0]:
             continue  # the target imports nothing
         for level in range(4):
-            for patterns in ([], ["lm0"], ["pq.*", "lm1"]):
+            for patterns in ([], ["lm0"], ["(pq|nsq).*", "lm1"]):
                 g = Gen(random.Random(0))
                 for n in nodes:
                     g.add_file(files[n][0], files[n][1], n, kinds[n])
@@ -477,9 +517,39 @@ def file_of(case, name):
     return i["file"] if i else None
 
 
+def shape_of(case, name):
+    """How the module sits on disk (by construction): plain module / regular package / inside a
+    PEP 420 namespace package (some ancestor directory has no __init__.py)."""
+    f = file_of(case, name)
+    if f is None:
+        return "no-file"
+    root, _, rel = f.partition("/")
+    parts = rel.split("/")
+    dirs = ["/".join(parts[:i]) for i in range(1, len(parts))]
+    if any(f"{root}/{d}/__init__.py" not in case["files"] for d in dirs):
+        return "in-namespace-package"
+    if len(parts) > 2 or (len(parts) == 2 and parts[-1] != "__init__.py"):
+        return "in-regular-package"
+    return "package" if parts[-1] == "__init__.py" else "top-level-module"
+
+
+def misclassification(case, obs, name):
+    """Ground-truth class (where the generator put the file / sys.stdlib_module_names) vs the
+    verdicts of the real is_in_pip / is_in_stdlib for this name; None when they agree."""
+    m = {x["name"]: x for x in obs["facts"]["modules"]}.get(name)
+    k = kind_indep(case, name)
+    if m is None or k not in ("local", "pip", "stdlib"):
+        return None
+    real = "pip" if m["inPip"] else ("stdlib" if m["inStdlib"] else "local")
+    if m["inPip"] and m["inStdlib"]:
+        real = "pip+stdlib"
+    return None if real == k else f"{k}-as-{real}:{shape_of(case, name)}"
+
+
 def judge(case, obs):
     """Property oracle on the implementation's real output. Returns list of violation signatures
-    (with detail)."""
+    (with detail). Ground truth is by construction: the class of a module is where the generator
+    put its file, never what rattr's classifiers say."""
     out = []
     if obs["outcome"] != "ok":
         return out  # fatal = rattr's own diagnostic; crashes are handled by the caller
@@ -492,8 +562,11 @@ def judge(case, obs):
             continue
         k = kind_indep(case, n)
         exc = excluded_indep(n, case["patterns"])
+        mis = misclassification(case, obs, n)
         if lvl == 0:
             sig = "module-analysed-at-level-0"
+        elif mis is not None and not exc and ((k == "pip" and lvl < 2) or (k == "stdlib" and lvl < 3)):
+            sig = "module-misclassified:" + mis
         elif k == "rattr":
             sig = "rattr-itself-analysed"
         elif exc and k == "stdlib" and lvl >= 3:
@@ -512,8 +585,11 @@ def judge(case, obs):
     files_got = {file_of(case, n) for n in got if file_of(case, n)}
     for n in sorted(want - gotset):
         f = file_of(case, n)
+        mis = misclassification(case, obs, n)
         if f is not None and f in files_got:
             sig = "second-name-of-analysed-file-missing-from-import-irs"
+        elif mis is not None:
+            sig = "module-misclassified:" + mis + ":not-analysed"
         else:
             sig = f"permitted-{kind_indep(case, n)}-module-not-analysed"
         out.append({"signature": sig, "module": n})
@@ -747,6 +823,11 @@ def evaluate(res, case, obs, mo, cli=None):
             res.violations.append({"signature": "other:import-stage-" + obs["outcome"], "case": shown,
                                    "detail": msg})
         return
+    for m in facts["modules"]:
+        mis = misclassification(case, obs, m["name"])
+        if mis:
+            res.count("classifier-differs-from-ground-truth:" + mis)
+        res.count("module-shape:" + kind_indep(case, m["name"]) + ":" + shape_of(case, m["name"]))
     vs = judge(case, obs)
     if not vs:
         res.count("verdict:holds")
@@ -760,24 +841,31 @@ def evaluate(res, case, obs, mo, cli=None):
 def run(tier, seed, build):
     res = common.Result(PID)
     res.rule = ("generated project trees: 1-3 local modules, optional package (2 submodules; optionally also "
-                "importable under a second top-level name), 0-3 fake-site-packages modules, real tiny stdlib "
+                "importable under a second top-level name), optional nested local package and local namespace "
+                "package, 0-7 fake-site-packages modules (plain module, package, nested package, modules inside a "
+                "PEP 420 namespace package without __init__.py), real tiny stdlib "
                 "modules, built-in/frozen stdlib modules, rattr itself, unlocatable modules; 0-4 imports per file "
                 "in 7 statement forms; x level 0..3 x 0-3 exclusion patterns; plus every import graph over "
-                "{target, lm0, pq1} (quick) / {target, lm0, lm1, pq1} (thorough) x 4 levels x 3 pattern sets. "
+                "{target, lm0, pq1} (quick) / {target, lm0, lm1, pq1} (thorough) and over {target, lm0, nsq.inner.mod "
+                "(pip, in a namespace package)} x 4 levels x 3 pattern sets. The oracle's module classes are fixed "
+                "by construction (where the generator put the file), never taken from rattr's classifiers. "
                 "non-trivial = distinct case whose target imports at least one locatable module")
     rng = random.Random(seed)
     n_random, n_cli = (400, 16) if tier == "quick" else (800, 30)
     cases = list(corpus_cases())
+    N_CORPUS = len(cases)
     if tier == "quick":
         cases += list(enumerated_cases(["target", "lm0", "pq1"]))
     else:
         cases += list(enumerated_cases(["target", "lm0", "lm1", "pq1"]))
+    # the same with the pip node inside a PEP 420 namespace package
+    cases += list(enumerated_cases(["target", "lm0", "nsq.inner.mod"]))
     res.extra["exhaustive"] = True
-    res.extra["exhaustive_cases"] = len(cases) - 2
+    res.extra["exhaustive_cases"] = len(cases) - N_CORPUS
     res.extra["random_cases"] = n_random
     cases += [random_case(rng) for _ in range(n_random)]
     n_enum = len(cases) - n_random
-    cli_idx = set(rng.sample(range(n_enum, len(cases)), min(n_cli, n_random))) | {0, 1} | set(rng.sample(range(2, n_enum), 2))
+    cli_idx = set(rng.sample(range(n_enum, len(cases)), min(n_cli, n_random))) | set(range(N_CORPUS)) | set(rng.sample(range(N_CORPUS, n_enum), 2))
 
     base = os.path.realpath(tempfile.mkdtemp(prefix="c12_"))
     assert "site-packages" not in base and not base.startswith(("/verif", "/repo"))
